@@ -262,7 +262,8 @@ Definition due_ok (c : case) : bool :=
   end.
 
 Definition c14_ok (c : case) : bool :=
-  numbers_ok (N.of_nat (length (c_cmds c))) (c_pre_objs c) (c_post_objs c) && due_ok c.
+  numbers_ok (N.of_nat (length (c_cmds c))) (c_pre_objs c) (c_post_objs c) && due_ok c
+  && thresholds_ok (e_now (c_env c)) (c_renew c).
 
 Fixpoint failing_from {A} (f : A -> bool) (i : N) (l : list A) : list N :=
   match l with
